@@ -170,6 +170,43 @@ func c18ItemToStr(c *Ctx, r *Report, f *FuncRef) {
 		}
 		return s, identObj(cf.info, as.Lhs[0])
 	}
+	// the left-hand side of the item's own rule is part of the text, unconditionally
+	lhsOK := false
+	for _, st := range f.Decl.Body.List {
+		as, ok := st.(*ast.AssignStmt)
+		if !ok || len(as.Rhs) != 1 {
+			continue
+		}
+		ast.Inspect(as.Rhs[0], func(n ast.Node) bool {
+			if se, ok := n.(*ast.SelectorExpr); ok && fieldNamed(cf.info, se, "Name") {
+				if in, ok := cf.resolve(se.X).(*ast.SelectorExpr); ok && fieldNamed(cf.info, in, "LeftPart") && isOwnRule(in.X) {
+					lhsOK = true
+				}
+			}
+			return true
+		})
+	}
+	// early returns before the loop: only for the empty right-hand side
+	earlyWhy := ""
+	for _, st := range f.Decl.Body.List {
+		is, ok := st.(*ast.IfStmt)
+		if !ok || !endsInExit(is.Body) {
+			continue
+		}
+		okCond := false
+		if be, ok := unparen(is.Cond).(*ast.BinaryExpr); ok && be.Op == token.EQL {
+			for _, pr := range [][2]ast.Expr{{be.X, be.Y}, {be.Y, be.X}} {
+				if call, ok := unparen(pr[0]).(*ast.CallExpr); ok && builtinName(cf.info, call) == "len" && len(call.Args) == 1 && isRhs(call.Args[0]) {
+					if v, isC := constInt(cf.info, pr[1]); isC && v == 0 {
+						okCond = true
+					}
+				}
+			}
+		}
+		if !okCond {
+			earlyWhy = "the function returns early under `" + exprString(is.Cond) + "`, which is not `the right-hand side is empty`: items of other rules lose their symbols"
+		}
+	}
 	loops := cf.rangesOver(nil, isRhs)
 	var inMarker, afterMarker string
 	var buf types.Object
@@ -248,8 +285,14 @@ func c18ItemToStr(c *Ctx, r *Report, f *FuncRef) {
 			}
 		}
 	}
+	if why == "" && !lhsOK {
+		why = "the left-hand side of the item's own rule is not part of the text"
+	}
+	if why == "" && earlyWhy != "" {
+		why = earlyWhy
+	}
 	r.Check(why == "", "C18.c", "R1 PROVENANCE", f.Name, c.pos(f.Decl.Pos()),
-		"an item is rendered from its own rule: every right-hand symbol in order, the marker before symbol number Dot, or at the end when Dot equals the length",
+		"an item is rendered from its own rule: its left-hand side, every right-hand symbol in order, the marker before symbol number Dot, or at the end when Dot equals the length; the only early exit is the empty right-hand side",
 		"an item's text is not its own rule with the marker at position Dot: "+why)
 }
 
@@ -564,4 +607,150 @@ func symbolNameOf(cf *coverFn, e ast.Expr, elem types.Object) bool {
 		return !hit
 	})
 	return hit
+}
+
+// c18AnnotationsAttached: inside the loop over the table's rows, after the loop over the cells, the collected
+// annotations (the slice the reduce class appends to) are written into the label of the row's own node: a store
+// <node>.Attrs["label"] = … whose value depends on the collected slice, where <node> is looked up under the row's
+// own state name, guarded by nothing but "there are annotations".
+func c18AnnotationsAttached(c *Ctx, r *Report, f *FuncRef, rows, cells *ast.RangeStmt) {
+	key := f.Name + "/annotations-reach-the-label"
+	if rows == nil || cells == nil {
+		return
+	}
+	cf := newCoverFn(f)
+	info := cf.info
+	// the collector: a slice local appended to inside the cell loop
+	var look types.Object
+	ast.Inspect(cells.Body, func(n ast.Node) bool {
+		if as, ok := n.(*ast.AssignStmt); ok && len(as.Lhs) == 1 && len(as.Rhs) == 1 {
+			if call, ok := unparen(as.Rhs[0]).(*ast.CallExpr); ok && builtinName(info, call) == "append" && len(call.Args) >= 2 && identObj(info, call.Args[0]) != nil && identObj(info, call.Args[0]) == identObj(info, as.Lhs[0]) {
+				if _, isSlice := info.TypeOf(as.Lhs[0]).Underlying().(*types.Slice); isSlice {
+					look = identObj(info, as.Lhs[0])
+				}
+			}
+		}
+		return true
+	})
+	if look == nil {
+		r.Undecided("C18.a", "R2 COVERAGE", key, c.pos(cells.Pos()), "no annotation collector in the cell loop")
+		return
+	}
+	why := "after the cell loop nothing stores the collected annotations into a node's label"
+	stateVar := identObj(info, rows.Key)
+	ast.Inspect(rows.Body, func(n ast.Node) bool {
+		as, ok := n.(*ast.AssignStmt)
+		if !ok || as.Pos() < cells.End() || len(as.Lhs) != 1 || len(as.Rhs) != 1 {
+			return true
+		}
+		ix, ok := unparen(as.Lhs[0]).(*ast.IndexExpr)
+		if !ok || !fieldNamed(info, ix.X, "Attrs") {
+			return true
+		}
+		if sv, ok := constString(info, ix.Index); !ok || sv != "label" {
+			return true
+		}
+		// value depends on the collector
+		if !cf.dependsOnMulti(as.Rhs[0], look) {
+			why = "the label is rewritten without the collected annotations"
+			return true
+		}
+		// the node is the one looked up under the row's own state
+		nodeOK := false
+		if se, ok := unparen(ix.X).(*ast.SelectorExpr); ok {
+			nodeOK = cf.dependsOn(se.X, stateVar)
+		}
+		if !nodeOK {
+			why = "the annotations are written to a node that is not looked up from the row's own state number"
+			return true
+		}
+		// guards inside the row loop: only tests of len(look)
+		guardsOK := true
+		for cur := ast.Node(as); cur != nil && cur != ast.Node(rows.Body); cur = cf.pm[cur] {
+			par, ok := cf.pm[cur].(*ast.IfStmt)
+			if !ok {
+				continue
+			}
+			if cur != ast.Node(par.Body) {
+				guardsOK = false
+				continue
+			}
+			be, ok := unparen(par.Cond).(*ast.BinaryExpr)
+			if !ok {
+				guardsOK = false
+				continue
+			}
+			call, okc := unparen(be.X).(*ast.CallExpr)
+			k, isC := constInt(info, be.Y)
+			if !okc || builtinName(info, call) != "len" || len(call.Args) != 1 || identObj(info, call.Args[0]) != look || !isC {
+				guardsOK = false
+				continue
+			}
+			// must hold for every non-empty collection
+			for _, nn := range []int64{1, 2, 5} {
+				v := false
+				switch be.Op {
+				case token.NEQ:
+					v = nn != k
+				case token.GTR:
+					v = nn > k
+				case token.GEQ:
+					v = nn >= k
+				}
+				if !v {
+					guardsOK = false
+				}
+			}
+		}
+		if guardsOK {
+			why = ""
+		} else {
+			why = "the annotations are attached only under a condition that fails for some non-empty collection"
+		}
+		return true
+	})
+	r.Check(why == "", "C18.a", "R2 COVERAGE", key, c.pos(rows.Pos()),
+		"whenever a state has reduce annotations they are appended to the label of that state's own node", why)
+}
+
+// dependsOnMulti: like dependsOn but follows locals with several definitions too (any definition counts).
+func (cf *coverFn) dependsOnMulti(e ast.Node, obj types.Object) bool {
+	seen := map[types.Object]bool{}
+	var visit func(n ast.Node) bool
+	visit = func(n ast.Node) bool {
+		hit := false
+		ast.Inspect(n, func(m ast.Node) bool {
+			if hit {
+				return false
+			}
+			id, ok := m.(*ast.Ident)
+			if !ok {
+				return true
+			}
+			o := objOf(cf.info, id)
+			if o == nil {
+				return true
+			}
+			if o == obj {
+				hit = true
+				return false
+			}
+			if !seen[o] {
+				seen[o] = true
+				ast.Inspect(cf.fd.Body, func(k ast.Node) bool {
+					if as, ok := k.(*ast.AssignStmt); ok && len(as.Lhs) == len(as.Rhs) {
+						for i, l := range as.Lhs {
+							if identObj(cf.info, l) == o && visit(as.Rhs[i]) {
+								hit = true
+							}
+						}
+					}
+					return !hit
+				})
+			}
+			return true
+		})
+		return hit
+	}
+	return visit(e)
 }
